@@ -88,11 +88,12 @@ def watson_spline_bounded_instance(prop):
 
     def call(inp):
         from scipy.special import hyp1f1
-        D = inp['D']
         rng = np.random.RandomState(inp['seed'])
         mcs = list(itertools.permutations([500, 40.0, 150.0]))[inp['order']]
         res = []
-        for mc in mcs:
+        # trainers of different dimension and different limits follow each other in one process
+        dims = [inp['D'], [5, 3, 2, 6, 4][inp['seed'] % 5], inp['D']]
+        for mc, D in zip(mcs, dims):
             tr = m.ComplexWatsonTrainer(D, max_concentration=mc) if mc != 500 else m.ComplexWatsonTrainer(D)
             ev = np.concatenate([rng.uniform(1.0 / D, 1.0, size=12), [1.0 / D, 1.0, 0.0]])
             kap = np.asarray(tr.hypergeometric_ratio_inverse(ev), dtype=float)
@@ -103,12 +104,12 @@ def watson_spline_bounded_instance(prop):
             # the whole trainer on peaky data: two nearly identical directions
             z = rng.normal(size=(8, D)) * 1e-3 + 1j * rng.normal(size=(8, D)) * 1e-3 + np.eye(D)[0]
             fit = tr.fit(z)
-            res.append({'mc': float(mc), 'ev': ev, 'kappa': kap, 'back': back, 'top': float(top), 'fit_kappa': float(np.asarray(fit.concentration))})
+            res.append({'mc': float(mc), 'ev': ev, 'kappa': kap, 'back': back, 'top': float(top), 'fit_kappa': float(np.asarray(fit.concentration)), 'D': D})
         return {'res': res}
 
     def ensures(sp, inp, out):
-        D = inp['D']
         for r in out['res']:
+            D = r['D']
             mc, ev, kap, back = r['mc'], r['ev'], r['kappa'], r['back']
             yield 'inverse-in-[0,max_concentration]', bool(np.all(np.isfinite(kap)) and np.all(kap >= 0.0) and np.all(kap <= mc * (1 + 1e-12)))
             inside = (ev > 1.0 / D + 1e-3) & (ev < r['top'] - 1e-6)
